@@ -43,15 +43,16 @@ PLAN = {
                 mc=[("MC_C18", {"quick": "MC_C18_quick.cfg", "thorough": "MC_C18_thorough.cfg"})]),
     "C07": dict(export="Export_C07", parts=[("p", dict(flags=[(False, False), (True, True)])),
                                             ("a", dict(flags=[(False, False), (False, True)], macros=[ANY_MACROS])),
-                                            ("t", dict(flags=FF))],
+                                            ("t", dict(flags=FF)), ("r", dict(flags=FF))],
                 mc=[("MC_Scan", {"quick": "MC_Scan.cfg", "thorough": "MC_Scan_thorough.cfg"})]),
-    "C11": dict(export="Export_C11", parts=[("m", dict(flags=FF)), ("s", dict(flags=FF))],
+    "C11": dict(export="Export_C11", parts=[("m", dict(flags=FF)), ("s", dict(flags=FF)), ("r", dict(flags=FF))],
                 mc=[("MC_Scan", {"quick": "MC_Scan.cfg", "thorough": "MC_Scan_thorough.cfg"})]),
     "C12": dict(export="Export_C12", parts=[("m", dict(flags=[(False, False), (True, False)], fresh=True)),
                                             ("n", dict(flags=FF, fresh=True, modes_only=True)),
                                             ("m", dict(flags=FF, fresh="batch", label="batch")),
                                             # the library's logger at DEBUG level (what `jasm --debug` sets)
-                                            ("m", dict(flags=FF, fresh=True, debug_level=True, label="debug"))],
+                                            ("m", dict(flags=FF, fresh=True, debug_level=True, label="debug")),
+                                            ("r", dict(flags=FF, fresh=True, label="range"))],
                 mc=[("MC_Scan", {"quick": "MC_Scan.cfg", "thorough": "MC_Scan_thorough.cfg"})]),
 }
 
